@@ -740,7 +740,7 @@ class TorControlProtocol(LineOnlyReceiver):
                     Failure(
                         TorDisconnectError(
                             text=("Tor unexpectedly disconnected while "
-                                  "running: {}".format(cmd.decode('ascii'))),
+                                  "running: {}".format(cmd.decode('ascii', 'backslashreplace'))),
                             error=reason,
                         )
                     )
